@@ -151,6 +151,7 @@ def menagerieDecls : List (String × Methods × String) := [
   ("EmbZ",      { isZero := .value },   "struct{!ZV:@ZV;K:int}"),          -- IsZero promoted from ZV
   ("EmbF",      { folder := .value },   "struct{!FV:@FV`,inline`;K:int}"), -- Fold promoted from FV
   ("UF", {}, "struct{D:int}"), ("UO", {}, "struct{D:int;E:string}"), ("UD", {}, "int64"),
+  ("UFM", {}, "map[string]int"), ("UFP", {}, "struct{P:*int}"),   -- pointer-shaped, registered fold function
   ("Ifc",   {}, "struct{A:any;B:any`b,omitempty`;C:any`,inline`}"),
   ("Mixed", {}, "struct{M:map[string]any;L:[]any}"),
   ("N",  {}, "struct{V:int;Next:*@N}"),
@@ -167,7 +168,7 @@ def menagerieDecls : List (String × Methods × String) := [
 ]
 
 /-- types with a user fold function registered through `gotype.Folders` (harness: UserFolders) -/
-def userFoldTypes : List String := ["UF", "UO", "UD"]
+def userFoldTypes : List String := ["UF", "UO", "UD", "UFM", "UFP"]
 
 /-! ## type parser -/
 
@@ -634,6 +635,12 @@ def customEvents : String → GoVal → Option (List XEv)
     some [.ev (.objStart 1 BT.any), .ev (.key (strBytes "ud")), .ev (.num .int d), .ev .objEnd]
   | "UD", .nilPtr => some [.ev .null]
   | "UD", .ptr (.int n) => some [.ev (.str (strBytes "ud" ++ decBytes n))]
+  | "UFM", .nilPtr => some [.ev .null]
+  | "UFM", .ptr .nilMap => some [.ev (.str (strBytes "um0"))]
+  | "UFM", .ptr (.map ms) => some [.ev (.str (strBytes "um" ++ decBytes ms.length))]
+  | "UFP", .nilPtr => some [.ev .null]
+  | "UFP", .ptr (.struct [.nilPtr]) => some [.ev (.str (strBytes "up-nil"))]
+  | "UFP", .ptr (.struct [.ptr (.int n)]) => some [.ev (.str (strBytes "up" ++ decBytes n))]
   | _, _ => none
 
 /-- `IsZero()` of the menagerie's IsZeroers; `recv` as for `customEvents`. -/
